@@ -126,6 +126,7 @@ type Job struct {
 	Prefixes   []string          `json:"prefixes"`
 	MaxPaths   int               `json:"max_paths"`
 	MaxSteps   int               `json:"max_steps"`
+	Cross      bool              `json:"cross,omitempty"`
 	MaxDepth   int               `json:"max_depth"`
 	TimeoutMs  int               `json:"timeout_ms"`
 	Redirects  map[string]string `json:"redirects,omitempty"`
@@ -159,6 +160,7 @@ type JobResult struct {
 	MaxQueryMs  int64          `json:"max_query_ms"`
 	ModelHits   int            `json:"model_hits"`
 	Fallbacks   int            `json:"fallbacks"`
+	CrossChecked int           `json:"cross_checked"`
 	Reinits     int            `json:"reinits"` // paths after which package-level state had to be re-initialised
 	Reached     map[string]int `json:"reached"`
 	Findings    []Finding      `json:"findings"`
@@ -211,7 +213,7 @@ func (s *Session) RunJob(job Job) (res JobResult) {
 			s.z = startZ3(nil)
 		}
 	}
-	e := &Explorer{z: s.z, MaxSteps: job.MaxSteps, MaxDepth: job.MaxDepth, TimeoutMs: job.TimeoutMs, SampleEach: job.SampleEach}
+	e := &Explorer{z: s.z, MaxSteps: job.MaxSteps, MaxDepth: job.MaxDepth, TimeoutMs: job.TimeoutMs, SampleEach: job.SampleEach, Cross: job.Cross}
 	if len(job.Summaries) > 0 {
 		e.Summaries = map[string]bool{}
 		if s.fnNames == nil {
@@ -266,6 +268,7 @@ func (s *Session) RunJob(job Job) (res JobResult) {
 	res.Queries, res.Sat, res.Unsat, res.Unknown = st.Queries, st.Sat, st.Unsat, st.Unknown
 	res.SolverMs, res.MaxQueryMs = st.SolverTime.Milliseconds(), st.MaxQuery.Milliseconds()
 	res.ModelHits, res.Fallbacks = st.ModelHits, st.Fallbacks
+	res.CrossChecked = st.CrossChecked
 	res.Reinits = s.Reinits - reinits0
 	if e.alt != nil {
 		e.alt.close()
